@@ -1035,4 +1035,6 @@ func genC18(r *rng, tier string, emit func(string)) {
 			g.raw(dec, b, ex)
 		}
 	}
+	// a ServerKeyExchange of the GM ECDHE suites whose named_curve the key agreement cannot serve (harness/c15evil2.go)
+	c15kxGenGM(r, tier, emit)
 }
